@@ -9,7 +9,9 @@ use crate::core::coordinate_transforms::{
     to_spherical,
 };
 use crate::core::hilbert::{ij_to_s, s_to_anchor};
-use crate::core::origin::{find_nearest_origin, quintant_to_segment, segment_to_quintant};
+use crate::core::origin::{
+    find_nearest_origin, haversine, quintant_to_segment, segment_to_quintant,
+};
 use crate::core::serialization::{
     deserialize, get_resolution, serialize, FIRST_HILBERT_RESOLUTION, MAX_RESOLUTION, WORLD_CELL,
 };
@@ -268,6 +270,13 @@ pub fn a5cell_contains_point(cell: &A5Cell, point: LonLat) -> Result<f64, String
     let spherical = from_lon_lat(point);
     let dodecahedron = DodecahedronProjection::get_thread_local();
     let projected_point = dodecahedron.forward(spherical, cell.origin_id)?;
+
+    // Every cell lies within 60 degrees of the centre of its face (37.4 degrees to a face vertex plus
+    // less than one cell of overhang). Farther away the face projection is an extrapolation without
+    // geometric meaning, which can even land inside the cell: such a point is outside, full stop
+    if haversine(spherical, cell.origin().axis) > 0.25 {
+        return Ok(-1.0);
+    }
 
     let (quintant, _orientation) = segment_to_quintant(cell.segment, cell.origin());
 
